@@ -286,7 +286,7 @@ Qed.
 (* the two matches on the first byte, as tests *)
 Lemma symbol_text_cons c (b : byte) r : symbol_text c (b :: r) =
   if b =? 58 then case_name (p_case c) (b :: r)
-  else if need_pipes (b :: r) then [124] ++ case_name (p_case c) (b :: r) ++ [124] else case_name (p_case c) (b :: r).
+  else if need_pipes (b :: r) then [124] ++ pesc (case_name (p_case c) (b :: r)) ++ [124] else case_name (p_case c) (b :: r).
 Proof.
   destruct (N.eqb_spec b 58) as [->|Hb]; [reflexivity|]. unfold symbol_text.
   destruct b as [|p]; [reflexivity|]. repeat (destruct p as [p|p|]; try reflexivity). contradiction.
@@ -294,10 +294,34 @@ Qed.
 Lemma sym_ok_cons c (b : byte) r : sym_ok c (b :: r) =
   forallb (fun b => b <? 128) (b :: r) &&
   (if b =? 58 then negb (existsb need_pipe (b :: r)) && bare_ok (b :: r)
-   else if need_pipes (b :: r) then forallb pipe_ok_byte (b :: r) else bare_ok (b :: r)).
+   else if need_pipes (b :: r) then true else bare_ok (b :: r)).
 Proof.
   destruct (N.eqb_spec b 58) as [->|Hb]; [reflexivity|]. unfold sym_ok. f_equal.
   destruct b as [|p]; [reflexivity|]. repeat (destruct p as [p|p|]; try reflexivity). contradiction.
+Qed.
+
+(* the escaped spelling between bars reads back as the name, byte for byte *)
+Lemma pesc_byte_body b : b < 256 -> SymBody (pesc_byte b) [b].
+Proof.
+  intros Hr. unfold pesc_byte. destruct ((b =? 124) || (b =? 92)) eqn:E1.
+  - assert (Hc : b = 124 \/ b = 92) by lia. destruct Hc as [-> | ->]; [exact (SymBody_esc1 124 eq_refl)|exact (SymBody_esc1 92 eq_refl)].
+  - destruct ((b <? 32) && negb ((b =? 9) || (b =? 10) || (b =? 13))) eqn:E2.
+    + assert (Hc : b = 0 \/ b = 1 \/ b = 2 \/ b = 3 \/ b = 4 \/ b = 5 \/ b = 6 \/ b = 7 \/ b = 8 \/ b = 11 \/ b = 12 \/
+                   b = 14 \/ b = 15 \/ b = 16 \/ b = 17 \/ b = 18 \/ b = 19 \/ b = 20 \/ b = 21 \/ b = 22 \/ b = 23 \/ b = 24 \/
+                   b = 25 \/ b = 26 \/ b = 27 \/ b = 28 \/ b = 29 \/ b = 30 \/ b = 31) by lia.
+      repeat (destruct Hc as [->|Hc]);
+        first [ match goal with |- SymBody _ [?r] => exact (SymBody_u4 0 0 (r / 16) (r mod 16) eq_refl eq_refl eq_refl eq_refl) end
+              | subst; exact (SymBody_u4 0 0 (31 / 16) (31 mod 16) eq_refl eq_refl eq_refl eq_refl) ].
+    + apply SymBody_plain, pipe_ok_raw; [exact Hr|]. unfold pipe_ok_byte. lia.
+Qed.
+Lemma pesc_body (w : list byte) : Forall (fun b => b < 256) w -> SymBody (pesc w) w.
+Proof.
+  induction 1 as [|b w Hb _ IH]; [apply SymBody_nil|]. unfold pesc. cbn [map concat].
+  change (b :: w) with ([b] ++ w). apply SymBody_app; [apply pesc_byte_body; exact Hb|exact IH].
+Qed.
+Lemma below_128_closed b : b < 128 -> lower b < 128 /\ upper b < 128.
+Proof.
+  intros H. unfold lower, upper. destruct ((65 <=? b) && (b <=? 90)) eqn:E1; destruct ((97 <=? b) && (b <=? 122)) eqn:E2; split; lia.
 Qed.
 
 Lemma RT_sym c (s : list byte) : sym_ok c s = true -> RT (OSym s) (symbol_text c s).
@@ -314,15 +338,14 @@ Proof.
     destruct (b =? 58) eqn:E58.
     + (* keyword *) apply N.eqb_eq in E58. subst b. apply andb_true_iff in H as [_ Hb]. apply Hbare; [exact Hb|apply keyword_resolves].
     + destruct (need_pipes (b :: r)) eqn:Enp.
-      * (* |name| *)
-        rename H into Hpipe.
+      * (* |name|, escaped *)
         exists (TLeaf (LPipe w)), (OSym w).
         split.
-        { apply Reads_pipe. intros x Hx.
-          assert (HF : Forall (fun b => pipe_ok_byte b = true /\ b < 128) w).
-          { apply case_name_forall; [apply pipe_ok_closed|]. apply Forall_forall. intros y Hy.
-            rewrite forallb_forall in Hpipe, Hascii. split; [apply Hpipe, Hy|]. specialize (Hascii y Hy). lia. }
-          destruct (in_cases x _ _ HF Hx) as [H1 H2]. apply pipe_ok_sym; assumption. }
+        { apply Reads_pipe_body, pesc_body.
+          assert (HF : Forall (fun b => b < 128) w).
+          { apply case_name_forall; [apply below_128_closed|]. apply Forall_forall. intros y Hy.
+            rewrite forallb_forall in Hascii. specialize (Hascii y Hy). lia. }
+          rewrite Forall_forall in *. intros x Hx. specialize (HF x Hx). lia. }
         repeat split; try reflexivity; try discriminate. cbn [obj_equal]. unfold w. rewrite map_lower_case. apply bytes_eqb_refl.
       * apply Hbare; [exact H|apply need_pipes_false_resolves; exact Enp].
 Qed.
